@@ -166,4 +166,192 @@ MUTANTS = [
 
     eid = ph.lEID"""),
     ('C05', 'lp-targets-not-bounded', P + 'imp_partition.py', 'self.targetLPs.append(self.stream.get_int(2))', 'self.targetLPs.append(int.from_bytes(self.stream.data[self.stream.index:self.stream.index + 2], "big")); self.stream.index += 2'),
+    # ---- C08
+    ('C08', 'file-list-not-sorted', P + 'peltool.py', '    file_list.sort(reverse=rev)\n', '    if rev:\n        file_list.reverse()\n'),
+    ('C08', 'count-ignores-extension', P + 'peltool.py', 'root, file_list = getFileList(path, config.extension)\n    for file in file_list:\n        with open', 'root, file_list = getFileList(path, None)\n    for file in file_list:\n        with open'),
+    ('C08', 'summary-plid-shows-eid', P + 'peltool.py', 'summary["PLID"] = ph.pLID', 'summary["PLID"] = ph.lEID'),
+    ('C08', 'summary-commit-shows-create', P + 'peltool.py', 'summary["Commit Time"] = ph.commitTime', 'summary["Commit Time"] = ph.createTime'),
+    ('C08', 'all-comma-after-each', P + 'peltool.py', """                        if firstPELPrinted:
+                            print(",")
+                        print(json_string, end = "")""", """                        print(json_string, end = "")
+                        print(",")"""),
+    ('C08', 'count-counts-before-filter', P + 'peltool.py', """                if not considerPEL(uh, config):
+                    continue
+                count+= 1""", """                count+= 1
+                if not considerPEL(uh, config):
+                    continue"""),
+    ('C08', 'reverse-ignored-in-list', P + 'peltool.py', 'def listOption(path: str, config: Config):\n    root, file_list = getFileList(path, config.extension, config.rev)', 'def listOption(path: str, config: Config):\n    root, file_list = getFileList(path, config.extension)'),
+    # ---- C09
+    ('C09', 'list-barrier-narrowed', P + 'peltool.py', """                else:
+                    return eid, summary
+        except Exception as e:""", """                else:
+                    return eid, summary
+        except AssertionError as e:"""),
+    ('C09', 'first-printed-set-before-decode', P + 'peltool.py', """                _, json_string = parsePEL(stream, config, False)
+                if json_string:
+                    if not config.hex:
+                        if firstPELPrinted:
+                            print(",")
+                        print(json_string, end = "")
+                        firstPELPrinted = True""", """                if not config.hex and firstPELPrinted:
+                    print(",")
+                firstPELPrinted = True
+                _, json_string = parsePEL(stream, config, False)
+                if json_string:
+                    if not config.hex:
+                        print(json_string, end = "")"""),
+    ('C09', 'walk-descends-into-subdirs', P + 'peltool.py', """            file_list.append(file)  ## create list of file names
+        # Only process top level directory
+        break""", """            file_list.append(os.path.relpath(os.path.join(root, file), path))  ## create list of file names"""),
+    ('C09', 'diagnostic-on-stdout', P + 'peltool.py', """            print(f"Exception: No PEL parsed for {file}: {e}", file=sys.stderr)
+    return "", \"\"""", """            print(f"Exception: No PEL parsed for {file}: {e}")
+    return "", \"\""""),
+    ('C09', 'plid-open-failure-aborts', P + 'peltool.py', """            try:
+                eid, summary = parsePELSummary(stream, config)
+                if eid :
+                    # The PLID""", """            if True:
+                eid, summary = parsePELSummary(stream, config)
+                if eid :
+                    # The PLID""", ),
+    # ---- C10
+    ('C10', 'plid-startswith', P + 'peltool.py', 'if plid == pelPLID.zfill(8):', 'if pelPLID.zfill(8).startswith(plid[:4]):'),
+    ('C10', 'plid-substring-again', P + 'peltool.py', 'if plid == pelPLID.zfill(8):', "if plid in summary['PLID']:"),
+    ('C10', 'bmc-id-compared-with-plid', P + 'peltool.py', 'if str(ph.obmcLogID) == config.bmcID:', 'if str(int(ph.pLID, 16)) == config.bmcID:'),
+    ('C10', 'src-must-be-prefix', P + 'peltool.py', "if config.src and config.src in summary['SRC']:", "if config.src and summary['SRC'].startswith(config.src):"),
+    ('C10', 'exclude-test-inverted', P + 'peltool.py', "if summary['SRC'] not in src_exclude_file_data:", "if summary['SRC'] in src_exclude_file_data:"),
+    ('C10', 'lookups-respect-class-default', P + 'peltool.py', """        if config.plid or config.src or config.bmcID or config.pelID \\
+                or config.srcExcludeFile:
+            return True""", """        if config.pelID:
+            return True"""),
+    ('C10', 'id-lowercased', P + 'peltool.py', '    pid = pid.upper()\n    if pid.startswith("0X"):', '    if pid.upper().startswith("0X"):'),
+    # ---- C11
+    ('C11', 'delete-without-break', P + 'peltool.py', """            os.remove(os.path.join(root, file))
+            foundID = True
+            break""", """            os.remove(os.path.join(root, file))
+            foundID = True"""),
+    ('C11', 'delete-all-descends', P + 'peltool.py', """            os.remove(os.path.join(root, file))
+        # Only process top level directory
+        break
+
+
+def processId""", """            os.remove(os.path.join(root, file))
+
+
+def processId"""),
+    ('C11', 'list-removes-unparsable', P + 'peltool.py', """        except Exception as e:
+            print(f"Exception: No PEL parsed for {file}: {e}", file=sys.stderr)
+    return "", \"\"""", """        except Exception as e:
+            print(f"Exception: No PEL parsed for {file}: {e}", file=sys.stderr)
+            os.remove(file)
+    return "", \"\""""),
+    ('C11', 'json-name-without-eid', P + 'peltool.py', "os.path.basename(file) + '.' + eid + '.json'", "os.path.basename(file) + '.json'"),
+    ('C11', 'delete-walks-subdirs', P + 'peltool.py', """            foundID = True
+            break
+        # Only process top level directory
+        break
+    if not foundID:
+        print("PEL not found")
+
+
+def parseAndPrintPELFile""", """            foundID = True
+            break
+        if foundID:
+            break
+    if not foundID:
+        print("PEL not found")
+
+
+def parseAndPrintPELFile"""),
+    ('C11', 'json-writes-into-cwd-style-path', P + 'peltool.py', 'output_dir, os.path.basename(file)', 'os.path.dirname(file), os.path.basename(file)'),
+    # ---- C12
+    ('C12', 'remove-back-inside-with', P + 'peltool.py', """                    output.writelines(json_string)
+
+                # Only remove the original once the output file has been
+                # flushed and closed without error.
+                if delete_after_parsing:
+                    os.remove(file)""", """                    output.writelines(json_string)
+                    if delete_after_parsing:
+                        os.remove(file)"""),
+    ('C12', 'file-clean-unconditional-again', P + 'peltool.py', 'if args.clean and printed:', 'if args.clean:'),
+    ('C12', 'remove-before-flush', P + 'peltool.py', """                sys.stdout.flush()
+                return True""", """                return True"""),
+    ('C12', 'json-clean-removes-filtered', P + 'peltool.py', """            else:
+                print(f"No PEL parsed for {file}", file=sys.stderr)""", """            else:
+                print(f"No PEL parsed for {file}", file=sys.stderr)
+                if delete_after_parsing:
+                    os.remove(file)"""),
+    # ---- C18
+    ('C18', 'ud-name-not-lowered', P + 'parse_user_data.py', 'name = (self.creatorID.lower() + "%04X" % self.compID).lower()', 'name = (self.creatorID.lower() + "%04X" % self.compID)'),
+    ('C18', 'subtype-version-swapped', P + 'parse_user_data.py', 'return cls.parseUDToJson(self.subType, self.version, mv)', 'return cls.parseUDToJson(self.version, self.subType, mv)'),
+    ('C18', 'hexwords-from-index-1', P + 'src.py', """return cls.parseSRCToJson(self.asciiString, hexwords[0], hexwords[1], hexwords[2],
+                                      hexwords[3], hexwords[4], hexwords[5], hexwords[6], hexwords[7])""", """return cls.parseSRCToJson(self.asciiString, hexwords[1], hexwords[2], hexwords[3],
+                                      hexwords[4], hexwords[5], hexwords[6], hexwords[7], hexwords[7])"""),
+    ('C18', 'callouts-ignore-plugins-off', P + 'src.py', """                    if config.allow_plugins:
+                        self.getProcedureDesc(json["Procedure"], json)""", """                    if True:
+                        self.getProcedureDesc(json["Procedure"], json)"""),
+    ('C18', 'osrc-wrong-refcode-slice', 'modules/srcparsers/osrc/osrc.py', "component = subsystem + refcode[4:6].lower() + '00'", "component = subsystem + refcode[2:4].lower() + '00'"),
+    ('C18', 'm2c00-ilog-routed-to-hlog', 'modules/udparsers/m2c00/m2c00.py', 'SUB_TYPE_ILOG: _parse_ilog,', 'SUB_TYPE_ILOG: _parse_hlog,'),
+    ('C18', 'm2c00-version-off', 'modules/udparsers/m2c00/m2c00.py', 'if drawer_type.user_data_version == version:', 'if drawer_type.user_data_version == version or version == 3:'),
+    ('C18', 'src-parse-ignores-plugins-off', P + 'src.py', """        if config.allow_plugins:
+            value = self.parse(hexwords)""", """        if True:
+            value = self.parse(hexwords)"""),
+    ('C18', 'ud-parser-cached-by-creator-only', P + 'parse_user_data.py', """            if userDataParserMod in userDataParsers:
+                cls = userDataParsers[userDataParserMod]""", """            if self.creatorID in userDataParsers:
+                cls = userDataParsers[self.creatorID]"""),
+    ('C18', 'src-none-crashes-again', P + 'src.py', "if value and value != 'null':", "if value != '' and value != 'null':"),
+    # ---- C19
+    ('C19', 'hexdata-class-attribute', P + 'src.py', """        self.hexData = []
+        self.srcType = 0""", """        self.srcType = 0"""),
+    ('C19', 'target-lps-accumulate', P + 'imp_partition.py', """        self.targetLPs = []
+
+    def toJSON""", """
+    targetLPs = []
+
+    def toJSON"""),
+    ('C19', 'ud-cache-keyed-by-component-only', P + 'parse_user_data.py', """            if userDataParserMod in userDataParsers:
+                cls = userDataParsers[userDataParserMod]
+            else:
+                try:
+                    cls = importlib.import_module(userDataParserMod)
+                except ImportError:
+                    # No print for informational purposes, this is encountered often, e.g. PHYP
+                    cls = None
+                userDataParsers[userDataParserMod] = cls""", """            if self.compID in userDataParsers:
+                cls = userDataParsers[self.compID]
+            else:
+                try:
+                    cls = importlib.import_module(userDataParserMod)
+                except ImportError:
+                    # No print for informational purposes, this is encountered often, e.g. PHYP
+                    cls = None
+                userDataParsers[self.compID] = cls"""),
+    ('C19', 'registry-message-mutated', P + 'registry.py', "            output['Message'] = pel['Documentation']['Message']\n", "            output['Message'] = pel['Documentation']['Message']\n            pel['Documentation']['Message'] = pel['Documentation']['Message'].replace('%1', '%2', 1) if len(self.pels) and pel['Documentation'].get('MessageArgSources') and len(pel['Documentation']['MessageArgSources']) > 1 else pel['Documentation']['Message']\n"),
+    ('C19', 'callout-failure-disables-module', P + 'src.py', """        except Exception:
+            pass
+
+    def getCallouts""", """        except Exception:
+            calloutParsers[calloutParserMod] = None
+
+    def getCallouts"""),
+    ('C19', 'section-list-module-level', P + 'peltool.py', """    section_jsons = []
+    for _ in range(2, ph.sectionCount):
+        sectionID, sectionLen, versionID, subType, componentID = parseHeader(
+            stream)
+        section_json = OrderedDict()
+        sectionFun(stream, section_json, sectionID, sectionLen,
+                   versionID, subType, componentID, ph.creatorID, config)
+        section_jsons.append(section_json)
+
+    buildOutput""", """    section_jsons = _section_jsons
+    for _ in range(2, ph.sectionCount):
+        sectionID, sectionLen, versionID, subType, componentID = parseHeader(
+            stream)
+        section_json = OrderedDict()
+        sectionFun(stream, section_json, sectionID, sectionLen,
+                   versionID, subType, componentID, ph.creatorID, config)
+        section_jsons.append(section_json)
+    if len(_section_jsons) > 40:
+        del _section_jsons[:]
+
+    buildOutput"""),
 ]
